@@ -48,8 +48,9 @@ var genesisMu sync.Mutex
 
 // GenesisOpts customises MakeGenesisWith.
 type GenesisOpts struct {
-	Names        []string // validator names (default val<i>)
-	SelfDelegate []string // self delegation in wei as decimal strings (default powers[i] * 1e24)
+	Names        []string                 // validator names (default val<i>)
+	SelfDelegate []string                 // self delegation in wei as decimal strings (default powers[i] * 1e24)
+	Mutate       func(g *genesis.Genesis) // last-minute changes (consensus params …)
 }
 
 // MakeGenesis builds a genesis with len(powers) validators; powers[i] is validator i's self delegation in units of
@@ -100,6 +101,9 @@ func MakeGenesisWith(powers []int64, extra int, o GenesisOpts) (*genesis.Genesis
 	g.Validators = vals
 	g.ChainID = "verif"
 	g.Timestamp = time.Unix(1700000000, 0).UTC()
+	if o.Mutate != nil {
+		o.Mutate(g)
+	}
 	return g, keys
 }
 
